@@ -65,7 +65,7 @@ ALLOWED_ASSUMPTIONS = {
                              "i64::saturating_sub", "i32::saturating_sub", "i32::rem_euclid", "i32::div_euclid", "i64::div_euclid", "i32::abs",
                              "i64::saturating_abs", "i64::saturating_add", "i32::saturating_add", "i32::wrapping_abs", "i64::wrapping_abs",
                              "i32::unsigned_abs", "i64::unsigned_abs"},
-    "external_body": {"utc", "equal"},
+    "external_body": {"utc", "equal", "axiom_slice_len_transitions", "axiom_slice_len_leaps"},
 }
 
 
@@ -118,8 +118,10 @@ def check_assumptions(found, text):
             if "/* delegated */" in code or name in DELEGATED_LEMMA_NAMES:
                 out.append("lemma `%s` assumed in this check, discharged by the property named under coverage.delegated_lemmas" % name)
                 continue
-            if name.startswith("axiom_"):
-                out.append("ASSUMED lemma `%s` (external_body proof fn, not proved; see DESIGN.md section 5, C11)" % name)
+            if name.startswith("axiom_slice_len"):
+                out.append("ASSUMED `%s`: a slice's size in bytes never exceeds isize::MAX (Rust language guarantee; Verus only knows len <= usize::MAX)" % name)
+            elif name.startswith("axiom_"):
+                out.append("ASSUMED lemma `%s` (external_body proof fn, not proved)" % name)
             else:
                 out.append("external_body contract on `%s` (rule R7; backed by a complete Kani harness on the real body)" % name)
         else:
